@@ -54,6 +54,7 @@ package tagstree
 //@   props C18
 //@   requires ttr != nil && ttr.fd != nil
 //@   safe
+//@   pure
 //@   ensures [a-chunk-is-exactly-the-requested-window] implies(result1 == nil, len(result0) == int(endOff - startOff) && endOff >= startOff)
 //@   ghostinit ghost(0, "ttFileSize") == 0
 //@   site callret fileInfo.Size #1:
@@ -108,4 +109,32 @@ package tagstree
 //@   safe
 //@   loop 1:
 //@     invariant index % 16 == 0 && index >= 0 && index <= len(ttr.metadataBuf)
+//@ end
+
+// C08 (the tag values reported are exactly those ingested) and C18: the
+// metadata of a tags tree file is a table of 16-byte entries, one per metric
+// name (name hash, start and end offset of that metric's chunk in the file).
+// Listing the values of a tag key walks EVERY entry: the cursor advances entry
+// by entry (it is never set to an offset that belongs to the file rather than
+// to the table), one chunk is read per entry, and the walk ends only when no
+// complete entry is left.  Ghost ttEntries counts the chunks read.  Panic-free
+// for every table content (`safe`).
+//@ ghostdecl ttEntries int
+//@ func (*TagValueIterator).loopThroughTagValues
+//@   assumed
+//@   modifies mapof(currTvMap), tvi.treeOffset
+//@   note frame only (ASSUMED): inserts the values it decodes into the given set and moves its own cursor
+//@ end
+//@ func (*TagTreeReader).readTagValuesOnly
+//@   props C08 C18
+//@   requires ttr != nil && ttr.fd != nil && len(ttr.metadataBuf) <= 4294967295 && rawTagValues != nil
+//@   safe
+//@   ghostinit ghost(0, "ttEntries") == 0
+//@   site callret ttr.readTagTreeChunk #1:
+//@     ghostset ghost(0, "ttEntries") = ghost(0, "ttEntries") + 1
+//@   loop 1:
+//@     invariant [the-cursor-advances-entry-by-entry] ghost(0, "ttEntries") >= 0 && ghost(0, "ttEntries") <= 268435455 && id == uint32(16 * ghost(0, "ttEntries")) && ttr.fd != nil
+//@   site call ttr.readTagTreeChunk #1:
+//@     assert [one-chunk-per-table-entry-read-at-its-own-offsets] int(id) == 16 * ghost(0, "ttEntries") + 12 && arg1 == le32(ttr.metadataBuf[16*ghost(0, "ttEntries")+8:]) && arg2 == le32(ttr.metadataBuf[16*ghost(0, "ttEntries")+12:])
+//@   ensures [every-complete-entry-of-the-table-was-visited] implies(result == nil, 16 * ghost(0, "ttEntries") + 16 > len(ttr.metadataBuf))
 //@ end
